@@ -210,6 +210,255 @@ def TABLES():
     out.append('def traverseRaises : List String := [' + ', '.join(lean_str(x) for x in _fault_names(tv)) + ']')
     out.extend(way_in_defs())
     out.extend(add_group_defs(rpc))
+    out.extend(wait_defs(rpc))
+    out.extend(answer_shape_defs(rpc, opt))
+    return out
+
+
+# ---------------------------------------------------------------------------------------------------------------------
+# deferred answers of startProcess / stopProcess (wait=True): the callback the method returns, as a function of what it
+# reads of the process at one poll.  Recognised by ROLE: the process is the second target of
+# `<g>, <p> = self._getGroupAndProcess(...)`; the callback is the nested `def` whose name the method returns; "defers" is
+# the test of the `if` statement that holds that `def`.  The whole body of the callback (if / raise RPCError(Faults.X) /
+# return True / return NOT_DONE_YET, single-assignment locals, the report-only call <p>.stop_report()) is translated into one
+# Lean expression, so reordering independent tests leaves the function it denotes unchanged while a forgotten state changes it.
+# ---------------------------------------------------------------------------------------------------------------------
+def _wait_parts(f):
+    from extract import Untranslatable
+    pvar = None
+    for n in ast.walk(f):
+        if isinstance(n, ast.Assign) and len(n.targets) == 1 and isinstance(n.targets[0], ast.Tuple) and len(n.targets[0].elts) == 2 \
+                and isinstance(n.value, ast.Call) and ast.unparse(n.value.func) == 'self._getGroupAndProcess' \
+                and all(isinstance(e, ast.Name) for e in n.targets[0].elts):
+            pvar = n.targets[0].elts[1].id
+            break
+    if pvar is None:
+        raise Untranslatable('no `<g>, <p> = self._getGroupAndProcess(...)`')
+    found = []
+    def walk(stmts, holder):
+        for i, st in enumerate(stmts):
+            if isinstance(st, ast.FunctionDef):
+                if any(isinstance(r, ast.Return) and isinstance(r.value, ast.Name) and r.value.id == st.name for r in stmts[i + 1:]):
+                    found.append((st, holder))
+                continue
+            if isinstance(st, ast.If):
+                walk(st.body, st); walk(st.orelse, None)
+            elif isinstance(st, (ast.For, ast.While, ast.With)):
+                walk(st.body, None)
+            elif isinstance(st, ast.Try):
+                walk(st.body, None)
+                for h in st.handlers: walk(h.body, None)
+                walk(st.orelse, None); walk(st.finalbody, None)
+    walk(f.body, None)
+    cb, holder = _only(found, 'a nested def that the method returns')
+    if holder is None:
+        raise Untranslatable('the returned callback is not defined under an `if`')
+    return pvar, cb, holder
+
+
+def _wait_block(tr, stmts, pvar, depth=0):
+    """the statements of a callback body as one Lean term of type WaitAns"""
+    from extract import Untranslatable
+    if not stmts:
+        return '(WaitAns.other "None")'
+    st, rest = stmts[0], stmts[1:]
+    if isinstance(st, ast.Expr) and isinstance(st.value, ast.Constant) and isinstance(st.value.value, str):
+        return _wait_block(tr, rest, pvar, depth)                    # docstring
+    if isinstance(st, ast.If):
+        return '(if %s then %s else %s)' % (tr.truth(st.test), _wait_block(tr, list(st.body) + rest, pvar, depth + 1),
+                                           _wait_block(tr, list(st.orelse) + rest, pvar, depth + 1))
+    if isinstance(st, ast.Raise):
+        if isinstance(st.exc, ast.Call) and ast.unparse(st.exc.func) == 'RPCError' and st.exc.args \
+                and isinstance(st.exc.args[0], ast.Attribute) and ast.unparse(st.exc.args[0].value) == 'Faults':
+            return '(WaitAns.fault %s)' % lean_str(st.exc.args[0].attr)
+        return '(WaitAns.other %s)' % lean_str('raise ' + (ast.unparse(st.exc) if st.exc else ''))
+    if isinstance(st, ast.Return):
+        if isinstance(st.value, ast.Name) and st.value.id == 'NOT_DONE_YET':
+            return 'WaitAns.again'
+        if isinstance(st.value, ast.Constant) and st.value.value is True:
+            return 'WaitAns.done'
+        return '(WaitAns.other %s)' % lean_str('return ' + (ast.unparse(st.value) if st.value else ''))
+    if isinstance(st, ast.Assign) and len(st.targets) == 1 and isinstance(st.targets[0], ast.Name) and st.targets[0].id in tr.locals:
+        return _wait_block(tr, rest, pvar, depth)                    # a single-assignment local: inlined where it is used
+    if isinstance(st, ast.Expr) and isinstance(st.value, ast.Call) and ast.unparse(st.value.func) == pvar + '.stop_report' and not st.value.args:
+        return _wait_block(tr, rest, pvar, depth)                    # reports only (logs how long the stop has been pending)
+    if isinstance(st, ast.Pass):
+        return _wait_block(tr, rest, pvar, depth)
+    raise Untranslatable('statement ' + ast.unparse(st).split('\n')[0])
+
+
+def wait_defs(rpc):
+    import importlib
+    import supervisor.states as st
+    importlib.reload(st)
+    out = ['/-! deferred answers of startProcess / stopProcess (wait=True): what the callback answers at one poll -/']
+    ps = sorted(((k, v) for k, v in vars(st.ProcessStates).items() if not k.startswith('_') and isinstance(v, int)), key=lambda kv: kv[1])
+    out.append('/-- ProcessStates: (name, code) -/')
+    out.append('def procStates : List (String × Int) := [' + ', '.join('(%s, %d)' % (lean_str(k), v) for k, v in ps) + ']')
+    for ident, name in (('procStoppedStates', 'STOPPED_STATES'), ('procRunningStates', 'RUNNING_STATES'), ('procSignallableStates', 'SIGNALLABLE_STATES')):
+        out.append('def %s : List Int := [%s]' % (ident, ', '.join(str(x) for x in getattr(st, name))))
+    out.append('/-- one poll of a deferred callback: NOT_DONE_YET, `True`, `raise RPCError(Faults.<name>)`, or anything else -/')
+    out.append('inductive WaitAns | again | done | fault (name : String) | other (what : String)')
+    out.append('deriving DecidableEq, Repr')
+    for ident, meth in (('start', 'startProcess'), ('stop', 'stopProcess')):
+        try:
+            f = find_func(rpc, 'SupervisorNamespaceRPCInterface.' + meth)
+            pvar, cb, holder = _wait_parts(f)
+            consts = dict(('ProcessStates.' + k, '(%d : Int)' % v) for k, v in ps)
+            consts.update({'STOPPED_STATES': 'procStoppedStates', 'RUNNING_STATES': 'procRunningStates', 'SIGNALLABLE_STATES': 'procSignallableStates'})
+            vars_ = {pvar + '.spawnerr': ('spawnerr', 'bool'), pvar + '.get_state()': ('state', 'int'), 'wait': ('wait', 'bool')}
+            site = Site('supervisor/rpcinterface.py', meth, ident + 'Wait', '', vars_, consts=consts, const_types={'ProcessStates': 'int'})
+            d = Tr(site, holder).truth(holder.test)
+            out.append('-- supervisor/rpcinterface.py:%s:%d  if %s: def %s(): ... return %s' % (meth, holder.lineno, ast.unparse(holder.test), cb.name, cb.name))
+            out.append('def %sDefers (wait spawnerr : Bool) (state : Int) : Bool := %s' % (ident, d))
+            body = _wait_block(Tr(site, cb), list(cb.body), pvar)
+            out.append('-- supervisor/rpcinterface.py:%s.%s:%d' % (meth, cb.name, cb.lineno))
+            out.append('def %sOnwait (spawnerr : Bool) (state : Int) : WaitAns := %s' % (ident, body))
+        except Exception as ex:
+            out.append('-- %sOnwait  supervisor/rpcinterface.py:%s  UNTRANSLATED (%s: %s)' % (ident, meth, type(ex).__name__, str(ex).replace('\n', ' ')))
+    return out
+
+
+# ---------------------------------------------------------------------------------------------------------------------
+# what reaches xmlrpc_marshal as the answer of a public method: the syntactic shape of every `return` expression, followed
+# through `return <call of a method / module function of rpcinterface.py / options.tailFile, readFile>`, through returned
+# nested functions (deferred callbacks: what THEY return is the answer) and through make_allfunc.  xmlrpc_marshal takes a
+# tuple for the already wrapped parameter tuple, so a method returning `a, b, c` is an HTTP 500 (and a 1-tuple answers its
+# element) while the same value inside system.multicall is an array.
+# ---------------------------------------------------------------------------------------------------------------------
+def answer_shape_defs(rpc, opt):
+    out = ['/-! the syntactic shapes of the values public methods return (what xmlrpc_marshal is handed) -/',
+           'inductive RetShape | tuple | list | dict | scalar | again | via (f : String) | opaque (src : String)',
+           'deriving DecidableEq, Repr']
+    try:
+        cls = find_func(rpc, 'SupervisorNamespaceRPCInterface')
+        methods = dict((n.name, n) for n in cls.body if isinstance(n, ast.FunctionDef))
+        aliases = dict((n.targets[0].id, n.value.id) for n in cls.body
+                       if isinstance(n, ast.Assign) and len(n.targets) == 1 and isinstance(n.targets[0], ast.Name) and isinstance(n.value, ast.Name))
+        modfuncs = dict((n.name, n) for n in rpc.body if isinstance(n, ast.FunctionDef))
+        optfuncs = dict((n.name, n) for n in opt.body if isinstance(n, ast.FunctionDef) and n.name in ('tailFile', 'readFile'))
+        rows, todo, seen = [], [], set()
+
+        def own_nodes(func):
+            """nodes of func's own body, nested defs excluded"""
+            stack = [n for n in func.body if not isinstance(n, (ast.FunctionDef, ast.ClassDef))]
+            while stack:
+                n = stack.pop()
+                yield n
+                for c in ast.iter_child_nodes(n):
+                    if not isinstance(c, (ast.FunctionDef, ast.Lambda, ast.ClassDef)):
+                        stack.append(c)
+
+        def set_outers(func):
+            stack = list(func.body)
+            while stack:
+                n = stack.pop()
+                if isinstance(n, ast.FunctionDef):
+                    n._outer = func
+                    set_outers(n)
+                    continue
+                stack.extend(ast.iter_child_nodes(n))
+
+        def nested_defs(func):
+            return dict((n.name, n) for n in ast.walk(func) if isinstance(n, ast.FunctionDef) and n is not func)
+
+        def shape(e, func, qual, depth=0):
+            if e is None:
+                return ['RetShape.scalar']
+            if isinstance(e, ast.Tuple):
+                return ['RetShape.tuple']
+            if isinstance(e, (ast.List, ast.ListComp)):
+                return ['RetShape.list']
+            if isinstance(e, (ast.Dict, ast.DictComp)):
+                return ['RetShape.dict']
+            if isinstance(e, (ast.Constant, ast.JoinedStr, ast.Compare, ast.BoolOp)) or (isinstance(e, ast.UnaryOp) and isinstance(e.op, ast.Not)):
+                return ['RetShape.scalar']
+            if isinstance(e, ast.IfExp):
+                return shape(e.body, func, qual, depth) + shape(e.orelse, func, qual, depth)
+            if isinstance(e, ast.Call):
+                fn = ast.unparse(e.func)
+                if fn.startswith('self.') and fn[5:] in methods or fn.startswith('self.') and aliases.get(fn[5:]) in methods:
+                    name = fn[5:] if fn[5:] in methods else aliases[fn[5:]]
+                    todo.append((name, methods[name]))
+                    return ['(RetShape.via %s)' % lean_str(name)]
+                if fn in modfuncs or fn in optfuncs:
+                    todo.append((fn, modfuncs.get(fn) or optfuncs[fn]))
+                    return ['(RetShape.via %s)' % lean_str(fn)]
+                if isinstance(e.func, ast.Name) and depth < 4:
+                    # a local bound to make_allfunc(...): calling it is calling the closure
+                    binds = [n.value for n in own_nodes(func) if isinstance(n, ast.Assign) and any(isinstance(t, ast.Name) and t.id == fn for t in n.targets)]
+                    if binds and all(isinstance(b, ast.Call) and ast.unparse(b.func) == 'make_allfunc' for b in binds) and 'make_allfunc' in modfuncs:
+                        inner = [r.value.id for r in ast.walk(modfuncs['make_allfunc']) if isinstance(r, ast.Return) and isinstance(r.value, ast.Name)
+                                 and r.value.id in nested_defs(modfuncs['make_allfunc'])]
+                        if len(set(inner)) == 1:
+                            todo.append(('make_allfunc', modfuncs['make_allfunc']))
+                            return ['(RetShape.via %s)' % lean_str('make_allfunc.' + inner[0])]
+                if fn in ('tuple',):
+                    return ['RetShape.tuple']
+                if fn in ('list', 'sorted'):
+                    return ['RetShape.list']
+                if fn in ('dict',):
+                    return ['RetShape.dict']
+                if fn in ('str', 'int', 'bool', 'len', 'as_string', 'as_bytes'):
+                    return ['RetShape.scalar']
+                return ['(RetShape.opaque %s)' % lean_str(ast.unparse(e)[:60])]
+            if isinstance(e, ast.Name):
+                if e.id == 'NOT_DONE_YET':
+                    return ['RetShape.again']
+                nd = nested_defs(func)
+                if e.id in nd:
+                    q = qual + '.' + e.id
+                    todo.append((q, nd[e.id]))
+                    return ['(RetShape.via %s)' % lean_str(q)]
+                if depth < 4:
+                    vals = [n.value for n in own_nodes(func) if isinstance(n, ast.Assign) and any(isinstance(t, ast.Name) and t.id == e.id for t in n.targets)]
+                    if vals and not any(isinstance(n, (ast.For, ast.AugAssign)) and isinstance(getattr(n, 'target', None), ast.Name) and n.target.id == e.id
+                                        for n in own_nodes(func)):
+                        res = []
+                        for v in vals:
+                            for s in shape(v, func, qual, depth + 1):
+                                if s not in res:
+                                    res.append(s)
+                        return res
+                    # a parameter with a default value (closures "fooling scoping": results=results)
+                    args = func.args.args
+                    defaults = dict(zip([a.arg for a in args[len(args) - len(func.args.defaults):]], func.args.defaults))
+                    if e.id in defaults and isinstance(defaults[e.id], ast.Name) and getattr(func, '_outer', None) is not None:
+                        return shape(defaults[e.id], func._outer, qual.rsplit('.', 1)[0], depth + 1)
+                    # a free variable of a closure: bound in the enclosing function
+                    if not vals and e.id not in [a.arg for a in args] and getattr(func, '_outer', None) is not None:
+                        return shape(e, func._outer, qual.rsplit('.', 1)[0], depth + 1)
+            return ['(RetShape.opaque %s)' % lean_str(ast.unparse(e)[:60])]
+
+        def do(qual, func):
+            if qual in seen:
+                return
+            seen.add(qual)
+            set_outers(func)
+            shapes = []
+            for n in own_nodes(func):
+                if isinstance(n, ast.Return):
+                    for s in shape(n.value, func, qual):
+                        if s not in shapes:
+                            shapes.append(s)
+            rows.append((qual, shapes))
+
+        for name in list(methods) + list(aliases):
+            if not name.startswith('_') and aliases.get(name, name) in methods:
+                f = methods[aliases.get(name, name)]
+                if name in aliases:
+                    seen.add(name); rows.append((name, ['(RetShape.via %s)' % lean_str(aliases[name])]))
+                    todo.append((aliases[name], f))
+                else:
+                    do(name, f)
+        while todo:
+            q, f = todo.pop()
+            do(q, f)
+        out.append('/-- (function, shapes of the expressions it returns); `via f`: the result of f is handed on (f has its own row) -/')
+        out.append('def answerShapes : List (String × List RetShape) := [\n  ' + ',\n  '.join(
+            '(%s, [%s])' % (lean_str(q), ', '.join(s)) for q, s in rows) + ']')
+    except Exception as ex:
+        out.append('-- answerShapes  UNTRANSLATED (%s: %s)' % (type(ex).__name__, str(ex).replace('\n', ' ')))
     return out
 
 
@@ -442,8 +691,20 @@ def way_in_defs():
     return out
 
 
+def _marshal_site():
+    """xmlrpc_marshal(<v>): g0 `ismethodresponse` (= not isinstance(<v>, xmlrpclib.Fault)), g1 `not isinstance(<v>, tuple)`;
+    <v> is the function's parameter whatever its name"""
+    try:
+        v = find_func(_parse('supervisor/xmlrpc.py'), 'xmlrpc_marshal').args.args[0].arg
+    except Exception:
+        v = 'value'
+    return Site('supervisor/xmlrpc.py', 'xmlrpc_marshal', 'marshal', '(isFault isTuple : Bool)',
+                {'isinstance(%s, xmlrpclib.Fault)' % v: ('isFault', 'bool'), 'isinstance(%s, tuple)' % v: ('isTuple', 'bool')},
+                want={'marshal_g0', 'marshal_g1'})
+
+
 SITES = [
-    _traverse, _immediate, _defmore, _defresp,
+    _traverse, _immediate, _defmore, _defresp, _marshal_site(),
     # g0: isinstance(mood, int) and mood < SupervisorStates.RUNNING
     Site('supervisor/rpcinterface.py', 'SupervisorNamespaceRPCInterface._update', 'update', '(moodIsInt : Bool) (mood : Int)',
          {'isinstance(self.supervisord.options.mood, int)': ('moodIsInt', 'bool'), 'self.supervisord.options.mood': ('mood', 'int')},
